@@ -83,10 +83,12 @@ class Vector:
             # now take each component of vector and assign them to base_scalars, eg x, y, z
             # replace each component of new_scalars with assigned x, y, z, eg r -> x, theta -> y
             # build new vector from these components
+            # NOTE: substitute simultaneously, the components can contain base scalars themselves
+            substitutions = {}
             for i, scalar in enumerate(self.coordinate_system.coord_system.base_scalars()):
-                new_component = 0 if i >= len(self.components) else self.components[i]
-                for j, old_scalar in enumerate(new_scalars):
-                    new_scalars[j] = old_scalar.subs(scalar, new_component)
+                substitutions[scalar] = 0 if i >= len(self.components) else self.components[i]
+            for j, old_scalar in enumerate(new_scalars):
+                new_scalars[j] = old_scalar.subs(substitutions, simultaneous=True)
             vector_ = Vector(new_scalars, self.coordinate_system)
         # We do not want to maintain own vector transformation functions, so
         # we convert our vector to SymPy format, transform it and convert back to Vector.
